@@ -39,9 +39,7 @@ impl Clone for VxValidator { #[verifier::external_body] fn clone(&self) -> (r: S
 pub uninterp spec fn map_total(m: Map<ChannelId, u64>) -> nat;
 pub open spec fn get0(m: Map<ChannelId, u64>, k: ChannelId) -> nat { if m.contains_key(k) { m[k] as nat } else { 0 } }
 #[verifier::external_body]
-pub proof fn axiom_map_total_insert(m: Map<ChannelId, u64>, k: ChannelId, v: u64)
-    ensures map_total(m.insert(k, v)) == map_total(m) - get0(m, k) + v, get0(m, k) <= map_total(m),
-{}
+pub proof fn axiom_map_total_insert(m: Map<ChannelId, u64>, k: ChannelId, v: u64) ensures map_total(m.insert(k, v)) == map_total(m) - get0(m, k) + v, get0(m, k) <= map_total(m) {}
 
 // alloc::collections::BTreeMap<ChannelId, u64>
 #[verifier::external_body] pub struct VxChanMap { _p: u8 }
